@@ -33,6 +33,12 @@ def gen_for(pid, rng, tier):
             spec["penalty_switch"] = True
             if rng.random() < 0.7:
                 spec["limits"] = None
+        elif rng.random() < 0.07 and spec["cost"][0] == "scalar" and not spec.get("penalty_switch"):
+            # an array-valued cost with an ARRAY-LIKE reducer (SetReducer(f, arraylike=True)), also for ONE residual (f([y]) != y)
+            terms = list(spec["cost"][1][1:]) if spec["cost"][1][0] == "sum" else [spec["cost"][1]]
+            n = rng.choice([1, 1, 2, len(terms)])
+            spec["cost"] = ("vector", terms[:max(1, n)])
+            spec["reducer"] = "sumsq"
         elif rng.random() < 0.08 and spec["cost"][0] == "scalar":
             # ExtraArgs handed to Step, then changed on the LIVE solver - to another tuple, to the EMPTY tuple, back
             spec["penalty"] = None; spec["constraints"] = None; spec["ranges"] = None; spec["reducer"] = None
@@ -665,8 +671,8 @@ def run_shard(pid, seed, shard, ncases, tier, extra):
             c2 = dict(case); c2["where"] = ex
             findings.append(Finding("monitor", key, what, c2))
         for which in CORR[pid]:
-            if spec.get("extra_run"):
-                break              # ExtraArgs runs: monitor only (the algorithm models take the cost as a function of x alone)
+            if spec.get("extra_run") or spec.get("reducer") == "sumsq":
+                break              # ExtraArgs runs / array-like reducers: monitor only (the algorithm models take the cost as a function of x alone)
             line, cmp = REQ[which](spec, rec)
             if line is not None:
                 lines.append(line); cmps.append(cmp); metas.append((which, case))
